@@ -82,6 +82,12 @@ def plan(tier, seed):
         for j in range(len(MULTI)):
             if MULTI[i]['t'] == 'c08' or MULTI[j]['t'] == 'c08':
                 shards.append([dict(a=i, b=j, sep=80.0, axis='x', order=o, lib='multi', serials=sr) for o in (0, 1) for sr in ('distinct', 'overlap')])
+    # hydrogens supplied in the file (off their ideal positions) and kept, next to a part with several conformations: the
+    # single-conformation part must come out the same in every conformation of the union and in its average
+    for i in range(len(MULTI)):
+        for j in range(len(MULTI)):
+            if (MULTI[i]['t'] == 'c08') != (MULTI[j]['t'] == 'c08'):
+                shards.append([dict(a=i, b=j, sep=80.0, axis='x', order=o, lib='multi', serials='distinct', keep=True) for o in (0, 1)])
     return dict(shards=shards, exhaustive=True,
                 rule=('parts: %d library entries; unions of every ordered pair (A=B included) at nearest-atom separations %s A along '
                       'axes %s, B first or second in the file, joined with TER and (exposed pairs, windows) by plain concatenation; whole reference files next to 2-3 copies of another one (100 A); multi-conformation parts (letter / digit / blank alt-loc labels, distinct or overlapping serials). non-trivial = distinct unions in which both parts carry at least one '
@@ -217,7 +223,27 @@ def run_case(case, ctx, acc):
     for a in sa.atoms + sb.atoms:
         if not (-999999 <= a.x <= 9999999 and -999999 <= a.y <= 9999999 and -999999 <= a.z <= 9999999):
             raise gen.Skip('outside-coordinate-field')
-    tag = (case.get('lib'), tuple(case.get('cfg') or ()), bool(case.get('same')))
+    if case.get('keep'):
+        from . import c07
+
+        def with_hydrogens(s_):
+            if any(a.alt != ' ' for a in s_.atoms) or any(isinstance(it, str) and it.startswith('MODEL') for it in s_.items):
+                return s_
+            fed = c07.hydrogens_fed_back(s_, pk.run(gen.to_text(s_)))
+            if fed is None:
+                raise gen.Skip('hydrogens-would-clash')
+            out = []
+            for it in fed:
+                if not isinstance(it, str) and it.element == 'H':
+                    it = it.clone()
+                    it.x, it.y, it.z = it.x + 120, it.y - 80, it.z + 100
+                out.append(it)
+            return gen.S(out)
+        sa, sb = with_hydrogens(sa), with_hydrogens(sb)
+        sa.renumber_serials()
+        sb.renumber_serials(5000)
+        opts += ('--keep-protons',)
+    tag = (case.get('lib'), tuple(case.get('cfg') or ()), bool(case.get('same')), bool(case.get('keep')))
     ra, qa, fa = alone(('A', case['a']) + tag, sa, opts)
     rb, qb, fb = alone(('B', case['b'], case['sep'], case['axis'], case['a']) + tag, sb, opts)
     first, second = (sa, sb) if case['order'] == 0 else (sb, sa)
@@ -264,6 +290,18 @@ def run_case(case, ctx, acc):
             break
         if not same_confs:
             acc.extra['unions_with_different_conformation_sets(average not compared)'] += 1
+        if not same_confs and len(rp['conformations']) == 1:
+            # a part with one conformation is completed into every conformation of the union: an exact copy each time, so every
+            # conformation of the union (and the average) shows the part exactly as it is alone
+            for name in ru['conformations'] + ['AVR']:
+                part_groups = [g for g in ru['confs'][name]['groups'] if inpart(g)]
+                d = cmp.diff_conf(rp['confs'][rp['conformations'][0]] if name != 'AVR' else rp['confs']['AVR'],
+                                  dict(groups=part_groups, chains=[], nc_flag=False), tol=1e-9)
+                if d:
+                    v.append(('single-conformation-part-differs-in-completed-conformation/%s/%s' % (d[0][0], 'avr' if name == 'AVR' else 'conf'),
+                              'part %s in %s: %s' % (tag, name, str(d[0])[:300])))
+                    break
+            continue
         for name in rp['conformations'] + (['AVR'] if same_confs else []):
             if name not in ru['confs']:
                 v.append(('part-changed-by-distant-part/conformations/%s' % ('span>1000A' if case['sep'] > 990 else 'span<1000A'),
